@@ -331,6 +331,15 @@ try:
 except TranslationError as ex:
     err('new_sample_type', None, str(ex)); nbase, ntext = 0, ''
 
+# private `const NAME: $Rep = $MIN | $MAX | $TOTAL;` (any names), also through one level of aliasing
+CONSTS.clear()
+_cdefs = dict((m.group(1), m.group(2)) for m in re.finditer(r'(?<!pub )const\s+(\w+)\s*:\s*\$Rep\s*=\s*(\$?\w+)\s*;', ntext))
+_roles = {'$MIN': '.minRep', '$MAX': '.maxRep', '$TOTAL': '.total'}
+for _n, _v in _cdefs.items():
+    if _v in _roles: CONSTS[_n] = _roles[_v]
+for _n, _v in _cdefs.items():
+    if _v in CONSTS and _n not in CONSTS: CONSTS[_n] = CONSTS[_v]
+
 translate('newBody', ntext, nbase, r'impl\s+\$T\s*\{', 'new', 'obody', [('rep', '$Rep')])
 translate('wrapOnce', ntext, nbase, r'impl\s+\$T\s*\{', 'wrap_overflow_once', 'body0', [('self', None)])
 translate('wrapFull', ntext, nbase, r'impl\s+\$T\s*\{', 'wrap_overflow', 'stmts', [('self', None)])
@@ -338,22 +347,28 @@ translate('fromRep', ntext, nbase, r'impl\s+From<\$Rep>\s+for\s+\$T\s*\{', 'from
 for op, tr in (('add', 'Add'), ('sub', 'Sub'), ('mul', 'Mul')):
     translate(op, ntext, nbase, r'impl\s+::core::ops::%s<\$T>\s+for\s+\$T\s*\{' % tr, op, 'body', [('self', None), ('otherSelf', 'Self')])
 
-# the accessor and unchecked constructor must be the trivial ones the model assumes
-for fn, want in (('inner', '{ self.0 }'), ('new_unchecked', '{ $T(s) }')):
+# the accessor and unchecked constructor must be the trivial ones the model assumes (whatever the parameter is called)
+for fn in ('inner', 'new_unchecked'):
     try:
         f = find_fn(ntext, nbase, r'impl\s+\$T\s*\{', fn)
         got = ' '.join(f['body'].split())
         functions[fn] = dict(line=line_of(f['off']), text=got)
+        ps = params_of(f['params'])
+        want = '{ self.0 }' if fn == 'inner' else '{ $T(%s) }' % (ps[0][0] if ps else 's')
         if got != want: err(fn, f['off'], 'body of %s is %s, the model assumes %s' % (fn, got, want), got)
     except TranslationError as ex:
         err(fn, None, str(ex))
 
-# constants block and struct declaration
-CONST_LINES = [r'pub const MIN: \$T = \$T\(\$MIN\);', r'pub const MAX: \$T = \$T\(\$MAX\);', r'pub const EQUILIBRIUM: \$T = \$T\(\$EQ\);',
-               r'const MIN_REP: \$Rep = \$MIN;', r'const MAX_REP: \$Rep = \$MAX;', r'const TOTAL: \$Rep = \$TOTAL;']
+# constants block: the exported MIN / MAX / EQUILIBRIUM must be $T of the macro's min / max / eq arguments (directly
+# or through private $Rep constants, whatever those are called)
 flat = ' '.join(ntext.split())
-for c in CONST_LINES:
-    if not re.search(c.replace(' ', r'\s*'), flat): err('constants', nbase, 'constant declaration not found: %s' % c.replace('\\', ''))
+for name, role in (('MIN', '.minRep'), ('MAX', '.maxRep')):
+    m = re.search(r'pub const %s\s*:\s*\$T\s*=\s*\$T\(\s*(\$?\w+)\s*\)\s*;' % name, flat)
+    if not m or not (m.group(1) == {'MIN': '$MIN', 'MAX': '$MAX'}[name] or CONSTS.get(m.group(1)) == role):
+        err('constants', nbase, 'exported constant %s is not $T(<the macro\'s %s argument>)' % (name, name.lower()))
+if not re.search(r'pub const EQUILIBRIUM\s*:\s*\$T\s*=\s*\$T\(\s*\$EQ\s*\)\s*;', flat): err('constants', nbase, 'exported constant EQUILIBRIUM is not $T($EQ)')
+for role in ('.minRep', '.maxRep', '.total'):
+    if role not in CONSTS.values(): err('constants', nbase, 'no private $Rep constant bound to the macro argument for %s' % role)
 ms = re.search(r'#\[derive\(([^)]*)\)\]\s*pub struct \$T\(\$Rep\);', ntext)
 ord_derived = False
 if not ms:
